@@ -210,3 +210,37 @@ PROPS["C11"] = {
     "assumptions": COMMON_ASSUME + ["tokio mpsc between link and session task is FIFO (frames of one delivery reach the session in order)"],
     "design_ref": "DESIGN.md §7 C11",
 }
+
+PROPS["C02"] = {
+    "title": "Settlement: each send resolves once, with its own outcome",
+    "module": "Theorems.C02",
+    "theorems": [
+        "Amqp.Settle.presettled_completes_at_once",
+        "Amqp.Settle.own_outcome",
+        "Amqp.Settle.completes_at_most_once",
+        "Amqp.Settle.completes",
+        "Amqp.Settle.settled_forgets",
+        "Amqp.Settle.terminal_forgets",
+        "Amqp.Settle.echo_exact",
+        "Amqp.Settle.every_terminal_report_is_settled",
+        "Amqp.Settle.echoed_is_forgotten",
+        "Amqp.Settle.no_echo_in_progress",
+        "Amqp.Settle.wf_run",
+        "Amqp.Settle.mem_knownIds",
+        "Amqp.Settle.second_keeps_until_settled",
+        "Amqp.Settle.sender_settlement_forgets",
+        "Amqp.Settle.first_settles_at_disposal",
+        "Amqp.Settle.second_reports_unsettled",
+        "Amqp.Settle.settled_not_reported_again",
+    ],
+    "harness": ["settle"],
+    "gen_files": ["Amqp/Gen/SettleKernels.lean"],
+    "technique": "Lean 4 proof by induction over disposition histories and over the ids a disposition names (routing table + unsettled maps + oneshots as a state machine; serial-number ranges; run expansion of the settling echo) + engine-level differential runs of real Senders / a real Receiver against a scripted peer playing arbitrary disposition scripts",
+    "level_text": "Machine-checked for every history of sends and dispositions (any ranges in serial arithmetic incl. across 2^32 and backwards, overlapping, repeated, unknown ids, settled/unsettled, terminal, received and absent states, several links in either rcv-settle-mode): a pre-settled send completes at once as accepted; a send completes at most once over the whole history and, when a settling or terminal disposition names its delivery-id, exactly then and with exactly that disposition's state; a settled disposition removes the delivery from the routing table and the unsettled map; in mode second the ids named by the settling dispositions sent back are exactly the named deliveries of mode-second links (each once, every run, none on a progress report) and they are then forgotten. Both branches of known_delivery_ids_in_range (walk the range / scan the table) are modelled and proved to name the same set. Receiver side: in mode second a delivery stays unsettled until a settled disposition from the sender names it; in mode first it is settled with the disposal. The range arithmetic is regenerated from session/mod.rs; the hand-written state machine is tied to the code by engine-level runs whose send results, settling dispositions on the wire and unsettled-map contents (read through a cfg-guarded hook) are compared case by case with the model and judged against the property.",
+    "level_note": "Trusted: Lean kernel; rs2lean extraction; hand-written Amqp/Settle.lean (tied by the differential runs only); harness + scripted peer + the two read-only hooks. Not modelled: transactional delivery states (Declared / TransactionalState), resumed links' unsettled maps exchanged at attach, the receiver's dispose_all range merging (compared per delivery after expansion), the order of ids within the table-scan branch (sorted by serial offset in the model; the proof needs only the set). Known and not claimed: the session's routing table keeps an entry for deliveries settled by a mode-first receiver's own settled disposition until the sender also names them (resource retention, not an unsettled-map entry).",
+    "assumptions": COMMON_ASSUME + [
+        "delivery-ids of outstanding deliveries are distinct (C11) and delivery-tags are distinct per link",
+        "fewer than 2^31 deliveries outstanding on a session (echo_exact)",
+    ],
+    "design_ref": "DESIGN.md §7 C02",
+}
